@@ -529,6 +529,10 @@ class Fxp():
             # if val is a str(s), convert to number(s)
             val, _, raw, signed, n_word, n_frac = self._format_inupt_val(val, return_sizes=True, raw=raw)
             val = np.array([val])
+            if val.dtype.kind in 'iu':
+                val = val.astype(object)        # python integers: the scaling below must not wrap in a (narrow) numpy integer type
+            elif val.dtype.kind == 'f' and val.dtype.itemsize < 8:
+                val = val.astype(np.float64)    # float16/float32: the search below needs the precision and range of a double
 
             # check if val is complex, if it is: convert to array of float/int
             if np.iscomplexobj(val) or isinstance(val.item(0), complex):
